@@ -202,10 +202,13 @@ func decodeTextUnmarshaler(buf []byte, cursor, depth int64, unmarshaler encoding
 		*(*unsafe.Pointer)(p) = nil
 		return end, nil
 	}
-	if s, ok := unquoteBytes(src); ok {
-		src = s
+	// the text handed over is the unmarshaler's own: not a window into the buffer being decoded
+	dst := make([]byte, len(src))
+	copy(dst, src)
+	if s, ok := unquoteBytes(dst); ok {
+		dst = s
 	}
-	if err := unmarshaler.UnmarshalText(src); err != nil {
+	if err := unmarshaler.UnmarshalText(dst); err != nil {
 		return 0, err
 	}
 	return end, nil
